@@ -142,6 +142,10 @@ def classify(res, unit):
                 undecided.append(rec)
                 continue
         ok = o_prim["kind"]
+        if kind == "assert" and ok == "contract" and o_prim.get("claim"):
+            rec["fn"], rec["label"], rec["props"] = o_prim["fn"], o_prim.get("label"), o_prim.get("props", [])
+            failures.append(rec)
+            continue
         if kind == "post":
             # primary = failed ensures clause
             if ok == "contract":
